@@ -8,7 +8,7 @@ import (
 	rt "github.com/zeromicro/go-zero/internal/verifrt"
 )
 
-//verif:entry tier=quick,thorough cover=perm
+//verif:entry native tier=quick,thorough cover=perm
 //verif:doc subset(vals, 32) for 0..4 values (atoms) with every outcome of rand.Shuffle: the result is a permutation of the input; and subset(vals, n) for n below len returns n of the input values without duplicates.
 func Verif_C13_Subset() {
 	n := rt.Choose("n", 5)
